@@ -5,16 +5,18 @@ import json, os, subprocess, sys, time
 args = [a for a in sys.argv[1:] if not a.startswith('--tier=')]
 tier = next((a.split('=')[1] for a in sys.argv[1:] if a.startswith('--tier=')), 'quick')
 name = args[0]
-dst = os.path.join('/verif/seeded', name)
+V = os.environ.get('VERIF_DIR', '/verif')      # lanes: a copy of /verif and its own worktree of /repo
+R = os.environ.get('VERIF_REPO', '/repo')
+dst = os.path.join(V, 'seeded', name)
 meta = json.load(open(os.path.join(dst, 'meta.json')))
 checks = args[1:] or [meta['property']]
-assert subprocess.run('git -C /repo status --porcelain', shell=True, capture_output=True, text=True).stdout.strip() == '', '/repo not clean'
-subprocess.run(f'git -C /repo apply {dst}/patch.diff', shell=True, check=True)
+assert subprocess.run(f'git -C {R} status --porcelain', shell=True, capture_output=True, text=True).stdout.strip() == '', f'{R} not clean'
+subprocess.run(f'git -C {R} apply {dst}/patch.diff', shell=True, check=True)
 try:
     meta['ran'] = [r for r in meta.get('ran', []) if r['cmd'].split()[1] not in checks]
     for p in checks:
         t0 = time.time()
-        r = subprocess.run(f'/venv/bin/python check.py {p} --tier {tier}', cwd='/verif', shell=True, stdout=subprocess.PIPE,
+        r = subprocess.run(f'/venv/bin/python check.py {p} --tier {tier}', cwd=V, shell=True, stdout=subprocess.PIPE,
                            stderr=subprocess.STDOUT, text=True, timeout=6000)
         lines = [l for l in r.stdout.splitlines() if 'VIOLATION' in l or 'KNOWN' in l]
         meta['ran'].append({'cmd': f'check.py {p} --tier {tier}', 'exit': r.returncode, 'lines': lines[:3], 'secs': round(time.time() - t0)})
@@ -24,7 +26,7 @@ try:
         for l in [x for x in lines if 'replay=' in x][:1]:
             rp = l.split('replay=')[1].split()[0]
             try:
-                ex = json.load(open(os.path.join('/verif', rp)))
+                ex = json.load(open(os.path.join(V, rp)))
                 for k in ('events', 'script', 'trace', 'all_failures'):
                     if isinstance(ex.get(k), list):
                         ex[k] = ex[k][-12:]
@@ -33,7 +35,7 @@ try:
             except Exception:
                 pass
 finally:
-    subprocess.run('git -C /repo checkout -- .', shell=True)
+    subprocess.run(f'git -C {R} checkout -- .', shell=True)
 meta['detected'] = any(r['exit'] == 1 for r in meta['ran'])
 json.dump(meta, open(os.path.join(dst, 'meta.json'), 'w'), indent=1, default=str)
 print('detected' if meta['detected'] else 'MISSED')
